@@ -49,7 +49,9 @@ def _matches_directory_pattern(path: str, pattern: str) -> bool:
     path_parts = Path(path).parts
     if dir_pattern in path_parts:
         return True
-    return fnmatch.fnmatch(path, dir_pattern + "*")
+    # Nested directory patterns ("src/gen/"): match files below that directory only,
+    # not look-alike siblings such as "src/generated/" or "src/gen.py"
+    return fnmatch.fnmatch(path, dir_pattern + "/*")
 
 
 def extract_patterns_from_content(content: str) -> list[str]:
